@@ -289,6 +289,85 @@ theorem find_ignores_relative_origin (cat : Catalog) (q : Name) (hq : Bounded q)
       | none => rw [hg] at h; exact ih h
   exact this _ h
 
+/-! ### `upsert` establishes the hypotheses: any catalog built by `upsert`s of absolute origins -/
+
+theorem lowerByte_idem (b : Nat) : lowerByte (lowerByte b) = lowerByte b := by
+  unfold lowerByte
+  split <;> (try split) <;> omega
+
+theorem lowerLabel_idem (ls : List Bytes) :
+    (ls.map lowerLabel).map lowerLabel = ls.map lowerLabel := by
+  simp only [List.map_map]
+  apply List.map_congr_left
+  intro l _
+  simp only [Function.comp, lowerLabel, List.map_map]
+  apply List.map_congr_left
+  intro b _
+  exact lowerByte_idem b
+
+theorem catalogWF_nil : CatalogWF [] := ⟨by simp, by simp, by simp⟩
+
+/-- **`Catalog::upsert` keeps the keys absolute (if the new origin is), lower-cased and unique.** -/
+theorem upsert_wf (cat : Catalog) (hc : CatalogWF cat) (z : Zone) (hz : z.origin.fqdn = true) :
+    CatalogWF (upsert cat z) := by
+  unfold upsert
+  extract_lets z'
+  have hf' : z'.origin.fqdn = true := by simpa [z', toLowercase] using hz
+  have hl' : z'.origin.labels.map lowerLabel = z'.origin.labels := by
+    simp only [z', toLowercase]; exact lowerLabel_idem _
+  clear_value z'
+  split
+  · -- replace the value of the existing key
+    have hmem : ∀ a ∈ cat.map (fun y => if keyEq y.origin z'.origin = true then z' else y),
+        a = z' ∨ (a ∈ cat ∧ a.origin ≠ z'.origin) := by
+      intro a ha
+      obtain ⟨y, hy, rfl⟩ := List.mem_map.1 ha
+      by_cases hk : keyEq y.origin z'.origin = true
+      · simp [hk]
+      · simp only [hk, Bool.false_eq_true, ↓reduceIte]
+        exact Or.inr ⟨hy, fun he => hk ((keyEq_iff _ _).2 he)⟩
+    refine ⟨fun a ha => ?_, fun a ha => ?_, fun a ha b hb hab => ?_⟩
+    · rcases hmem a ha with rfl | ⟨h, _⟩
+      · exact hf'
+      · exact hc.fqdn a h
+    · rcases hmem a ha with rfl | ⟨h, _⟩
+      · exact hl'
+      · exact hc.lower a h
+    · rcases hmem a ha with rfl | ⟨h1, hn1⟩ <;> rcases hmem b hb with rfl | ⟨h2, hn2⟩
+      · rfl
+      · exact absurd hab.symm hn2
+      · exact absurd hab hn1
+      · exact hc.uniq a h1 b h2 hab
+  · -- a new key
+    rename_i hany
+    have hnew : ∀ y ∈ cat, y.origin ≠ z'.origin := by
+      intro y hy he
+      apply hany
+      rw [List.any_eq_true]
+      exact ⟨y, hy, (keyEq_iff _ _).2 he⟩
+    refine ⟨fun a ha => ?_, fun a ha => ?_, fun a ha b hb hab => ?_⟩
+    · rcases List.mem_append.1 ha with h | h
+      · exact hc.fqdn a h
+      · simp only [List.mem_singleton] at h; subst h; exact hf'
+    · rcases List.mem_append.1 ha with h | h
+      · exact hc.lower a h
+      · simp only [List.mem_singleton] at h; subst h; exact hl'
+    · rcases List.mem_append.1 ha with h1 | h1 <;> rcases List.mem_append.1 hb with h2 | h2
+      · exact hc.uniq a h1 b h2 hab
+      · simp only [List.mem_singleton] at h2; subst h2; exact absurd hab (hnew a h1)
+      · simp only [List.mem_singleton] at h1; subst h1; exact absurd hab.symm (hnew b h2)
+      · simp only [List.mem_singleton] at h1 h2; subst h1; subst h2; rfl
+
+/-- every catalog configured by a sequence of `upsert`s of absolute origins is well-formed -/
+theorem configured_wf (zs : List Zone) (hz : ∀ z ∈ zs, z.origin.fqdn = true) :
+    CatalogWF (zs.foldl upsert []) := by
+  suffices h : ∀ cat, CatalogWF cat → CatalogWF (zs.foldl upsert cat) from h [] catalogWF_nil
+  induction zs with
+  | nil => intro cat hc; exact hc
+  | cons z rest ih =>
+    intro cat hc
+    exact ih (fun y hy => hz y (by simp [hy])) _ (upsert_wf cat hc z (hz z (by simp)))
+
 /-! ### non-vacuity -/
 
 private def exCom : Zone := { idx := 0, origin := ⟨[[99, 111, 109]], true⟩, handlers := [] }
